@@ -7,7 +7,8 @@ PATCH="$(readlink -f "${1:?patch}")"; ID="${2:?Cnn}"; TIER="${3:-quick}"
 HERE="$(cd "$(dirname "$0")" && pwd)"
 . "$HERE/env.sh"
 W="$(mktemp -d /tmp/verif-mut.XXXXXX)"
-trap 'rm -rf "$W" "$HERE"/.bin/*.alt-* "$HERE"/.bin/go.alt-*' EXIT
+TAGM="$(echo "$W/repo" | md5sum | cut -c1-8)"
+trap 'rm -rf "$W" "$HERE"/.bin/*.alt-$TAGM* "$HERE"/.bin/go.alt-$TAGM.*' EXIT
 rsync -a --exclude .git /repo/ "$W/repo/"
 ( cd "$W/repo" && patch -p1 --no-backup-if-mismatch < "$PATCH" ) || { echo "MUTATE: patch does not apply"; exit 4; }
 if [ "${MUTATE_UNITTEST:-}" != "" ]; then
